@@ -193,7 +193,8 @@ def tasks(tier):
                 for el in ('int', 'byte', 'bool'):
                     if tier == 'quick' and unchecked and fam == 'literal':
                         continue
-                    out.append(task(MOD, 'run', P, label=f'array/{fam}/{el}/w{w}/u{int(unchecked)}', cost=20, family=fam, el=el, w=w, unchecked=unchecked, tier=tier))
+                    out.append(task(MOD, 'run', P, label=f'array/{fam}/{el}/w{w}/u{int(unchecked)}', cost=20 * w * (2 if unchecked else 1) * (3 if fam == 'assign' else 1),
+                                    family=fam, el=el, w=w, unchecked=unchecked, tier=tier))
             out.append(task(MOD, 'run', P, label=f'array/string-lookup/w{w}/u{int(unchecked)}', cost=8, family='string-lookup', el='-', w=w, unchecked=unchecked, tier=tier))
             if not unchecked or tier == 'thorough':
                 out.append(task(MOD, 'run', P, label=f'array/length/w{w}/u{int(unchecked)}', cost=8, family='length', el='-', w=w, unchecked=unchecked, tier=tier))
